@@ -34,6 +34,10 @@ Lemma cong_intro p a b : cong p a b -> a mod p = b mod p.
 Proof. unfold cong. auto. Qed.
 Lemma cong_eq p a b : a = b -> cong p a b.
 Proof. intros ->. reflexivity. Qed.
+Lemma cong_diff p a b k : a - b = k * p -> cong p a b.
+Proof.
+  intros H. unfold cong. replace a with (b + k * p) by lia. apply Z_mod_plus_full.
+Qed.
 #[global] Typeclasses Opaque cong.
 #[global] Opaque cong.
 
@@ -41,6 +45,10 @@ Proof. intros ->. reflexivity. Qed.
 Ltac modring :=
   match goal with |- _ mod ?p = _ mod ?p =>
     apply (cong_intro p); rewrite ?(cong_mod p); apply cong_eq; try ring end.
+(** [modring_k K]: same, when the two sides differ by K * p *)
+Ltac modring_k K :=
+  match goal with |- _ mod ?p = _ mod ?p =>
+    apply (cong_intro p); rewrite ?(cong_mod p); apply (cong_diff p _ _ K); try ring end.
 (** [modsmall]: prove [E1 mod p = E2] when E2 is the reduced representative *)
 Ltac modsmall E2 p := transitivity (E2 mod p); [modring | apply Z.mod_small].
 
@@ -181,4 +189,552 @@ Proof.
   destruct Hb as [-> | ->].
   - rewrite Z.add_0_r in *. rewrite Ho. destruct (Z.odd a); [apply Z.mod_small; lia|reflexivity].
   - rewrite Z.odd_add. rewrite Ho. destruct (Z.odd a); simpl; [reflexivity|apply Z.mod_0_l; lia].
+Qed.
+
+(** * prod / all (runtime.prod, runtime.all): log-round pairing recursion *)
+Definition lprod (xs : list Z) : Z := fold_right Z.mul 1 xs.
+
+Fixpoint pairs (p : Z) (xs : list Z) : list Z :=       (* [x[i]*x[i+1] for i in range(0, n, 2)] *)
+  match xs with a :: b :: r => (a * b) mod p :: pairs p r | _ => [] end.
+
+(** one round: [h = [x[i]*x[i+1] for i in range(n%2, n, 2)]; x[n%2:] = h] *)
+Definition prod_step (p : Z) (xs : list Z) : list Z :=
+  if Nat.odd (length xs) then match xs with x0 :: r => x0 :: pairs p r | [] => [] end
+  else pairs p xs.
+
+Fixpoint prod_loop (p : Z) (fuel : nat) (xs : list Z) : list Z :=
+  match fuel with
+  | O => xs
+  | S f => match xs with
+           | _ :: _ :: _ => prod_loop p f (prod_step p xs)
+           | _ => xs
+           end
+  end.
+
+(** [prod(x)]: [x[0] = x[0] * start] with start = 1, then the rounds, result [x[0]] *)
+Definition prod_v (p : Z) (xs : list Z) : Z :=
+  match xs with
+  | [] => 1
+  | x0 :: r => nth 0 (prod_loop p (length xs) ((x0 * 1) mod p :: r)) 0
+  end.
+
+Lemma pairs_spec p : forall n xs, length xs = (2 * n)%nat ->
+  lprod (pairs p xs) mod p = lprod xs mod p /\ length (pairs p xs) = n.
+Proof.
+  induction n as [|n IH]; intros xs Hl.
+  - destruct xs; [simpl; auto|simpl in Hl; lia].
+  - destruct xs as [|a [|b r]]; try (simpl in Hl; lia).
+    destruct (IH r) as [IH1 IH2]; [simpl in Hl; lia|].
+    cbn [pairs lprod fold_right length]. split; [|lia].
+    fold (lprod (pairs p r)). fold (lprod r).
+    transitivity ((a * b * (lprod (pairs p r) mod p)) mod p); [modring|].
+    rewrite IH1. modring.
+Qed.
+
+Lemma odd_even_len (xs : list Z) :
+  (Nat.odd (length xs) = true /\ exists n, length xs = S (2 * n)) \/
+  (Nat.odd (length xs) = false /\ exists n, length xs = (2 * n)%nat).
+Proof.
+  destruct (Nat.odd (length xs)) eqn:E.
+  - left. split; auto. apply Nat.odd_spec in E. destruct E as [n E]. exists n. lia.
+  - right. split; auto. assert (Ev : Nat.even (length xs) = true).
+    { rewrite <- Nat.negb_odd, E. reflexivity. }
+    apply Nat.even_spec in Ev. destruct Ev as [n Ev]. exists n. lia.
+Qed.
+
+Lemma prod_step_spec p xs :
+  lprod (prod_step p xs) mod p = lprod xs mod p /\
+  (2 <= length xs -> length (prod_step p xs) < length xs /\ 1 <= length (prod_step p xs))%nat.
+Proof.
+  unfold prod_step. destruct (odd_even_len xs) as [[-> [n Hn]] | [-> [n Hn]]].
+  - destruct xs as [|x0 r]; [simpl in Hn; lia|].
+    destruct (pairs_spec p n r) as [H1 H2]; [simpl in Hn; lia|].
+    cbn [lprod fold_right length]. fold (lprod (pairs p r)). fold (lprod r). split.
+    + transitivity ((x0 * (lprod (pairs p r) mod p)) mod p); [modring|]. rewrite H1. modring.
+    + simpl in Hn. lia.
+  - destruct (pairs_spec p n xs Hn) as [H1 H2]. split; [exact H1|lia].
+Qed.
+
+Lemma prod_loop_spec p : forall fuel xs, (1 <= length xs <= S fuel)%nat ->
+  exists y, prod_loop p fuel xs = [y] /\ y mod p = lprod xs mod p.
+Proof.
+  induction fuel as [|f IH]; intros xs Hl.
+  - destruct xs as [|y [|? ?]]; simpl in Hl; try lia. exists y. simpl. split; auto. f_equal. ring.
+  - destruct xs as [|y [|z r]]; [simpl in Hl; lia| |].
+    + exists y. simpl. split; auto. f_equal. ring.
+    + cbn [prod_loop]. destruct (prod_step_spec p (y :: z :: r)) as [H1 H2].
+      destruct (IH (prod_step p (y :: z :: r))) as [w [Hw1 Hw2]].
+      { specialize (H2 ltac:(simpl; lia)). lia. }
+      exists w. split; auto. congruence.
+Qed.
+
+Theorem prod_correct p xs : 1 < p -> Forall (fun x => 0 <= x < p) xs -> prod_v p xs = lprod xs mod p.
+Proof.
+  intros Hp Hx. unfold prod_v. destruct xs as [|x0 r]; [simpl; symmetry; apply Z.mod_small; lia|].
+  destruct (prod_loop_spec p (length (x0 :: r)) ((x0 * 1) mod p :: r)) as [y [Hy1 Hy2]].
+  { simpl. lia. }
+  rewrite Hy1. cbn [nth]. cbn [lprod fold_right] in *. fold (lprod r) in *.
+  assert (Hy : 0 <= y < p).
+  { (* every element produced by the loop is reduced; here: follow from y being x0 or a product mod p *)
+    revert Hy1. generalize (length (x0 :: r)). intros fuel.
+    assert (Hall : Forall (fun x => 0 <= x < p) ((x0 * 1) mod p :: r)).
+    { constructor; [apply Z.mod_pos_bound; lia|]. inversion Hx; auto. }
+    revert Hall. generalize ((x0 * 1) mod p :: r). clear - Hp.
+    induction fuel as [|f IH]; intros xs Hall E.
+    - simpl in E. subst. inversion Hall; auto.
+    - destruct xs as [|a [|b t]]; simpl in E; try discriminate.
+      + inversion E; subst. inversion Hall; auto.
+      + refine (IH _ _ E).
+        assert (Hp' : forall ys, Forall (fun x => 0 <= x < p) (pairs p ys)).
+        { clear - Hp. fix rec 1. intros [|u [|v w]]; simpl; try constructor.
+          - apply Z.mod_pos_bound; lia. - apply rec. }
+        unfold prod_step. destruct (Nat.odd (length (a :: b :: t))).
+        * constructor; [inversion Hall; auto|apply Hp'].
+        * apply Hp'. }
+  rewrite <- (Z.mod_small y p Hy). rewrite Hy2. modring.
+Qed.
+
+(** [all] runs the same rounds (for integers, f = 0) *)
+Definition all_v := prod_v.
+
+(** * is_zero_public (runtime.is_zero_public): open a * r for random r; correct iff r <> 0 *)
+Definition is_zero_public_v (p a r : Z) : bool := (a * r) mod p =? 0.
+
+Lemma mod_mul_zero p a b : prime p -> (a * b) mod p = 0 -> a mod p = 0 \/ b mod p = 0.
+Proof.
+  intros Hp H. pose proof (prime_ge_2 p Hp).
+  apply Zmod_divide in H; [|lia]. destruct (prime_mult p Hp a b H) as [D|D]; [left|right];
+    apply Zdivide_mod; auto.
+Qed.
+
+Theorem is_zero_public_correct p a r :
+  prime p -> r mod p <> 0 (* good tape *) -> is_zero_public_v p a r = (a mod p =? 0).
+Proof.
+  intros Hp Hr. unfold is_zero_public_v.
+  destruct (a mod p =? 0) eqn:E.
+  - apply Z.eqb_eq in E. apply Z.eqb_eq. rewrite <- Zmult_mod_idemp_l, E. apply Z.mod_0_l.
+    pose proof (prime_ge_2 p Hp). lia.
+  - apply Z.eqb_neq in E. apply Z.eqb_neq. intros H. destruct (mod_mul_zero p a r Hp H); auto.
+Qed.
+
+(** the complement of the good set: with r = 0 every value tests as zero *)
+Lemma is_zero_public_bad_tape p a : is_zero_public_v p a 0 = true.
+Proof. unfold is_zero_public_v. rewrite Z.mul_0_r, Zmod_0_l. reflexivity. Qed.
+
+Lemma lprod_mod_zero p xs : prime p -> (lprod xs mod p = 0 <-> Exists (fun x => x mod p = 0) xs).
+Proof.
+  intros Hp. pose proof (prime_ge_2 p Hp). induction xs as [|x r IH]; cbn [lprod fold_right].
+  - rewrite Z.mod_1_l by lia. split; [lia|intros H'; inversion H'].
+  - fold (lprod r). split.
+    + intros H'. destruct (mod_mul_zero p _ _ Hp H'); [left; auto|right; apply IH; auto].
+    + intros H'. inversion H' as [? ? E|? ? E]; subst.
+      * rewrite <- Zmult_mod_idemp_l, E. apply Z.mod_0_l. lia.
+      * rewrite <- Zmult_mod_idemp_r. apply IH in E. rewrite E, Z.mul_0_r. apply Z.mod_0_l. lia.
+Qed.
+
+(** * Toft-style comparison circuit shared by [sgn] and [_mod] *)
+(** bit lists are little-endian; the code's loop runs from the most significant bit down, so the
+    running [sumXors] at index i counts the differing bits above i. [s] is the field value of the
+    random sign (1 or p-1). Returns (e[0..n-1], final sumXors). *)
+Fixpoint toft (p s : Z) (rb cb : list Z) : list Z * Z :=
+  match rb, cb with
+  | r :: rb', c :: cb' =>
+      let '(e, sx) := toft p s rb' cb' in
+      ((s + r - c + 3 * sx) mod p :: e, sx + (if c =? 0 then r else 1 - r))
+  | _, _ => ([], 0)
+  end.
+
+Lemma small_mod_zero p w : - p < w < p -> w mod p = 0 -> w = 0.
+Proof.
+  intros Hw H. destruct (Z_lt_le_dec w 0).
+  - assert (E : w mod p = w + p).
+    { replace w with ((w + p) + (-1) * p) at 1 by ring. rewrite Z_mod_plus_full. apply Z.mod_small. lia. }
+    lia.
+  - rewrite Z.mod_small in H; lia.
+Qed.
+
+Lemma toft_spec p s : (s = 1 \/ s = p - 1) ->
+  forall rb cb, Forall bit rb -> Forall bit cb -> length rb = length cb ->
+    3 * Z.of_nat (length rb) + 3 < p ->
+    let R := bits_val rb in let C := bits_val cb in
+    0 <= snd (toft p s rb cb) <= Z.of_nat (length rb) /\
+    (snd (toft p s rb cb) = 0 <-> R = C) /\
+    (Exists (fun x => x mod p = 0) (fst (toft p s rb cb)) <->
+       (s = 1 /\ R < C) \/ (s = p - 1 /\ C < R)).
+Proof.
+  intros Hs. induction rb as [|r rb IH]; intros cb Hrb Hcb Hlen Hp.
+  - destruct cb; [|simpl in Hlen; lia]. simpl. repeat split; try lia.
+    intros H; inversion H.
+  - destruct cb as [|c cb]; [simpl in Hlen; lia|].
+    inversion Hrb as [|? ? Hr Hrb']; inversion Hcb as [|? ? Hc Hcb']; subst.
+    cbn [length] in Hp, Hlen. rewrite Nat2Z.inj_succ in Hp.
+    specialize (IH cb Hrb' Hcb' ltac:(lia) ltac:(lia)).
+    cbn [toft bits_val]. destruct (toft p s rb cb) as [e sx] eqn:ET. cbn [fst snd] in *.
+    cbn [length]. rewrite Nat2Z.inj_succ.
+    destruct IH as [IH1 [IH2 IH3]].
+    set (R' := bits_val rb) in *. set (C' := bits_val cb) in *.
+    assert (He0 : ((s + r - c + 3 * sx) mod p) mod p = 0 <->
+                  (sx = 0 /\ ((s = 1 /\ r = 0 /\ c = 1) \/ (s = p - 1 /\ r = 1 /\ c = 0)))).
+    { rewrite Zmod_mod. destruct Hs as [-> | ->].
+      - rewrite Z.mod_small by (destruct Hr, Hc; subst; lia). destruct Hr, Hc; subst; lia.
+      - replace (p - 1 + r - c + 3 * sx) with ((r - c + 3 * sx - 1) + 1 * p) by ring.
+        rewrite Z_mod_plus_full. split.
+        + intros H. apply small_mod_zero in H; [|destruct Hr, Hc; subst; lia].
+          destruct Hr, Hc; subst; lia.
+        + intros [-> [[? _]|[_ [-> ->]]]]; [lia|]. reflexivity. }
+    split; [destruct Hr, Hc; subst; simpl; lia|].
+    split.
+    { destruct Hr as [-> | ->], Hc as [-> | ->]; cbn [Z.eqb]; lia. }
+    rewrite Exists_cons, He0, IH3.
+    destruct Hr, Hc; subst; destruct Hs; subst; lia.
+Qed.
+
+(** xnor of the random bits with the public bits of c: [r_bits[i] if (c >> i) & 1 else 1 - r_bits[i]] *)
+Fixpoint xnors (p : Z) (rb cb : list Z) : list Z :=
+  match rb, cb with
+  | r :: rb', c :: cb' => (if c =? 0 then (1 - r) mod p else r) :: xnors p rb' cb'
+  | _, _ => []
+  end.
+
+Lemma xnors_spec p : 1 < p -> forall rb cb, Forall bit rb -> Forall bit cb -> length rb = length cb ->
+  Forall (fun x => 0 <= x < p) (xnors p rb cb) /\
+  lprod (xnors p rb cb) = (if bits_val rb =? bits_val cb then 1 else 0).
+Proof.
+  intros Hp. induction rb as [|r rb IH]; intros cb Hrb Hcb Hlen.
+  - destruct cb; [|simpl in Hlen; lia]. simpl. auto.
+  - destruct cb as [|c cb]; [simpl in Hlen; lia|].
+    inversion Hrb as [|? ? Hr Hrb']; inversion Hcb as [|? ? Hc Hcb']; subst.
+    destruct (IH cb Hrb' Hcb' ltac:(simpl in Hlen; lia)) as [IH1 IH2].
+    cbn [xnors lprod fold_right bits_val]. fold (lprod (xnors p rb cb)). rewrite IH2.
+    pose proof (bits_val_range rb Hrb'). pose proof (bits_val_range cb Hcb').
+    split.
+    + constructor; auto. destruct Hr as [-> | ->], Hc as [-> | ->]; cbn [Z.eqb];
+        try (apply Z.mod_pos_bound); lia.
+    + destruct (bits_val rb =? bits_val cb) eqn:E;
+        [apply Z.eqb_eq in E|apply Z.eqb_neq in E];
+        destruct Hr as [-> | ->], Hc as [-> | ->]; cbn [Z.eqb];
+        rewrite ?Z.sub_0_r, ?Z.sub_diag, ?Z.mod_1_l, ?Z.mod_0_l by lia;
+        match goal with |- context [?a =? ?b] => destruct (a =? b) eqn:E';
+          [apply Z.eqb_eq in E'|apply Z.eqb_neq in E'] end; lia.
+Qed.
+
+(** * sgn (runtime.sgn, a la Toft): mode 0 = sign, 1 = LT (a < 0), 2 = EQ (a = 0) *)
+(** tape: [rbits] = l random bits, [rdiv] = r_divl < 2^k, [ssign] = random sign (1 or p-1),
+    [rz] = blinding factor of the inner is_zero_public *)
+Definition sgn_v (p l mode x : Z) (rbits : list Z) (rdiv ssign rz : Z) : Z :=
+  let rmod := bits_val rbits in
+  let a_rmodl := (x + (2 ^ l + rmod)) mod p in
+  let c := ((a_rmodl + rdiv * 2 ^ l) mod p) mod 2 ^ l in             (* opened, reduced mod 2^l *)
+  let cb := to_bits (length rbits) c in
+  let z :=                                                             (* a < 0, a la Toft *)
+    let '(e, sx) := toft p ssign rbits cb in
+    let g := is_zero_public_v p (prod_v p (e ++ [(ssign - 1 + 3 * sx) mod p])) rz in
+    let h := if g then 3 - ssign else 3 + ssign in
+    fdiv2 p l ((((c - a_rmodl) mod p) + h * 2 ^ (l - 1)) mod p) in
+  let h2 := all_v p (xnors p rbits cb) in                             (* a = 0 *)
+  if mode =? 1 then z
+  else if mode =? 2 then h2
+  else (((h2 - 1) mod p) * (((2 * z) mod p - 1) mod p)) mod p.
+
+Lemma toft_reduced p s : 1 < p -> forall rb cb, Forall (fun x => 0 <= x < p) (fst (toft p s rb cb)).
+Proof.
+  intros Hp. induction rb as [|r rb IH]; intros [|c cb]; simpl; auto.
+  specialize (IH cb). destruct (toft p s rb cb) as [e sx]. simpl in *.
+  constructor; auto. apply Z.mod_pos_bound. lia.
+Qed.
+
+(** the inner comparison: g is true iff (s = 1 and c >= r) or (s = -1 and c < r) *)
+Lemma sgn_g_spec p s rz rb cb : prime p -> (s = 1 \/ s = p - 1) -> rz mod p <> 0 ->
+  Forall bit rb -> Forall bit cb -> length rb = length cb -> 3 * Z.of_nat (length rb) + 3 < p ->
+  let '(e, sx) := toft p s rb cb in
+  is_zero_public_v p (prod_v p (e ++ [(s - 1 + 3 * sx) mod p])) rz = true <->
+  (s = 1 /\ bits_val rb <= bits_val cb) \/ (s = p - 1 /\ bits_val cb < bits_val rb).
+Proof.
+  intros Hp Hs Hrz Hrb Hcb Hlen Hbig. pose proof (prime_ge_2 p Hp) as Hp2.
+  pose proof (toft_spec p s Hs rb cb Hrb Hcb Hlen Hbig) as [H1 [H2 H3]].
+  pose proof (toft_reduced p s ltac:(lia) rb cb) as Hred.
+  destruct (toft p s rb cb) as [e sx]. cbn [fst snd] in *.
+  rewrite is_zero_public_correct by auto.
+  rewrite prod_correct; [|lia|].
+  2:{ apply Forall_app. split; auto. constructor; [apply Z.mod_pos_bound; lia|constructor]. }
+  rewrite Zmod_mod, Z.eqb_eq, lprod_mod_zero by auto.
+  rewrite Exists_app, H3, Exists_cons, Exists_nil, Zmod_mod.
+  assert (Hl : (s - 1 + 3 * sx) mod p = 0 <-> (s = 1 /\ sx = 0)).
+  { destruct Hs as [-> | ->].
+    - rewrite Z.mod_small by lia. lia.
+    - replace (p - 1 - 1 + 3 * sx) with ((3 * sx - 2) + 1 * p) by ring. rewrite Z_mod_plus_full.
+      split; [intros H; apply small_mod_zero in H; lia|lia]. }
+  rewrite Hl. lia.
+Qed.
+
+Theorem sgn_lt_correct p l k a rbits rdiv ssign rz :
+  prime p -> 1 <= k -> 1 <= l -> 2 ^ (l + k + 1) < p -> 3 * l + 3 < p ->
+  - 2 ^ l <= a < 2 ^ l ->
+  Forall bit rbits -> Z.of_nat (length rbits) = l -> 0 <= rdiv < 2 ^ k ->
+  (ssign = 1 \/ ssign = p - 1) -> rz mod p <> 0 ->
+  sgn_v p l 1 (a mod p) rbits rdiv ssign rz = if a <? 0 then 1 else 0.
+Proof.
+  intros Hp Hk Hl Hpl Hp3 Ha Hb Hlen Hr Hs Hrz. unfold sgn_v. cbn [Z.eqb Pos.eqb].
+  pose proof (prime_ge_2 p Hp) as Hp2.
+  pose proof (bits_val_range rbits Hb) as HR. rewrite Hlen in HR.
+  set (R := bits_val rbits) in *. set (M := 2 ^ l) in *.
+  assert (HM : 0 < M) by (apply Z.pow_pos_nonneg; lia).
+  assert (E1 : M = 2 * 2 ^ (l - 1)) by (unfold M; rewrite <- Z.pow_succ_r by lia; f_equal; lia).
+  assert (E2 : 2 ^ (l + k + 1) = 2 * 2 ^ k * M).
+  { unfold M. rewrite <- Z.mul_assoc, <- Z.pow_add_r, <- Z.pow_succ_r by lia. f_equal. lia. }
+  assert (E3 : 2 <= 2 ^ k).
+  { assert (2 ^ 1 <= 2 ^ k) by (apply Z.pow_le_mono_r; lia). simpl in *. lia. }
+  assert (Ec : (((a mod p + (M + R)) mod p + rdiv * M) mod p) = a + M + R + rdiv * M).
+  { modsmall (a + M + R + rdiv * M) p. nia. }
+  rewrite Ec.
+  replace (a + M + R + rdiv * M) with (a + R + (1 + rdiv) * M) by ring. rewrite Z_mod_plus_full.
+  set (c := (a + R) mod M).
+  assert (Hc : 0 <= c < M) by (apply Z.mod_pos_bound; lia).
+  set (cb := to_bits (length rbits) c).
+  assert (Hcb : Forall bit cb) by apply to_bits_bit.
+  assert (Hcl : length rbits = length cb) by (unfold cb; now rewrite to_bits_length).
+  assert (Hcv : bits_val cb = c) by (apply to_bits_val; rewrite Hlen; exact Hc).
+  pose proof (sgn_g_spec p ssign rz rbits cb Hp Hs Hrz Hb Hcb Hcl ltac:(lia)) as Hg.
+  destruct (toft p ssign rbits cb) as [e sx]. rewrite Hcv in Hg. fold R in Hg.
+  set (g := is_zero_public_v p _ rz) in *.
+  (* h is congruent to 2 when c >= R and to 4 when c < R *)
+  set (q := (a + R) / M).
+  assert (Hq : a + R = M * q + c) by (apply Z.div_mod; lia).
+  assert (Hh : exists h', (h' = 2 /\ R <= c \/ h' = 4 /\ c < R) /\
+     (((c - (a mod p + (M + R)) mod p) mod p + (if g then 3 - ssign else 3 + ssign) * 2 ^ (l - 1)) mod p
+      = ((- q - 1 + h' / 2) * M) mod p)).
+  { destruct g eqn:Eg.
+    - destruct (proj1 Hg eq_refl) as [[-> Hle] | [-> Hlt]].
+      + exists 2. split; [lia|]. change (2 / 2) with 1. modring. rewrite E1. nia.
+      + exists 4. split; [lia|]. change (4 / 2) with 2.
+        modring_k (- 2 ^ (l - 1)). rewrite E1. nia.
+    - assert (Hng : ~ ((ssign = 1 /\ R <= c) \/ (ssign = p - 1 /\ c < R))).
+      { intros H. apply Hg in H. congruence. }
+      destruct Hs as [-> | ->].
+      + exists 4. split; [lia|]. change (4 / 2) with 2. modring. rewrite E1. nia.
+      + exists 2. split; [lia|]. change (2 / 2) with 1.
+        modring_k (2 ^ (l - 1)). rewrite E1. nia. }
+  destruct Hh as [h' [Hh1 Hh2]]. rewrite Hh2.
+  assert (H2p : 2 < p) by lia.
+  unfold M. rewrite fdiv2_exact by (auto; lia). fold M.
+  assert (Hres : - q - 1 + h' / 2 = if a <? 0 then 1 else 0).
+  { destruct (a <? 0) eqn:Ea; [apply Z.ltb_lt in Ea|apply Z.ltb_ge in Ea];
+      destruct Hh1 as [[-> Hc1] | [-> Hc1]];
+      [change (2 / 2) with 1|change (4 / 2) with 2|change (2 / 2) with 1|change (4 / 2) with 2]; nia. }
+  rewrite Hres. destruct (a <? 0); apply Z.mod_small; lia.
+Qed.
+
+Lemma sgn_c_spec p l k a R rdiv : 1 <= k -> 1 <= l -> 2 ^ (l + k + 1) < p ->
+  - 2 ^ l <= a < 2 ^ l -> 0 <= R < 2 ^ l -> 0 <= rdiv < 2 ^ k ->
+  (((a mod p + (2 ^ l + R)) mod p + rdiv * 2 ^ l) mod p) mod 2 ^ l = (a + R) mod 2 ^ l.
+Proof.
+  intros Hk Hl Hpl Ha HR Hr. set (M := 2 ^ l) in *.
+  assert (HM : 0 < M) by (apply Z.pow_pos_nonneg; lia).
+  assert (E2 : 2 ^ (l + k + 1) = 2 * 2 ^ k * M).
+  { unfold M. rewrite <- Z.mul_assoc, <- Z.pow_add_r, <- Z.pow_succ_r by lia. f_equal. lia. }
+  assert (E3 : 2 <= 2 ^ k).
+  { assert (2 ^ 1 <= 2 ^ k) by (apply Z.pow_le_mono_r; lia). simpl in *. lia. }
+  assert (Ec : (((a mod p + (M + R)) mod p + rdiv * M) mod p) = a + M + R + rdiv * M).
+  { modsmall (a + M + R + rdiv * M) p. nia. }
+  rewrite Ec.
+  replace (a + M + R + rdiv * M) with (a + R + (1 + rdiv) * M) by ring. apply Z_mod_plus_full.
+Qed.
+
+Theorem sgn_eq_correct p l k a rbits rdiv ssign rz :
+  1 < p -> 1 <= k -> 1 <= l -> 2 ^ (l + k + 1) < p ->
+  - 2 ^ l < a < 2 ^ l ->
+  Forall bit rbits -> Z.of_nat (length rbits) = l -> 0 <= rdiv < 2 ^ k ->
+  sgn_v p l 2 (a mod p) rbits rdiv ssign rz = if a =? 0 then 1 else 0.
+Proof.
+  intros Hp Hk Hl Hpl Ha Hb Hlen Hr. unfold sgn_v. cbn [Z.eqb Pos.eqb].
+  pose proof (bits_val_range rbits Hb) as HR. rewrite Hlen in HR.
+  rewrite (sgn_c_spec p l k) by (auto; lia).
+  set (R := bits_val rbits) in *. set (M := 2 ^ l) in *.
+  assert (HM : 0 < M) by (apply Z.pow_pos_nonneg; lia).
+  set (c := (a + R) mod M).
+  assert (Hc : 0 <= c < M) by (apply Z.mod_pos_bound; lia).
+  set (cb := to_bits (length rbits) c).
+  assert (Hcb : Forall bit cb) by apply to_bits_bit.
+  assert (Hcl : length rbits = length cb) by (unfold cb; now rewrite to_bits_length).
+  assert (Hcv : bits_val cb = c) by (apply to_bits_val; rewrite Hlen; exact Hc).
+  destruct (xnors_spec p Hp rbits cb Hb Hcb Hcl) as [Hx1 Hx2].
+  unfold all_v. rewrite prod_correct by auto. rewrite Hx2, Hcv. fold R.
+  assert (Hiff : R = c <-> a = 0).
+  { unfold c. split.
+    - intros E. pose proof (Z.div_mod (a + R) M ltac:(lia)) as Hdm. rewrite <- E in Hdm.
+      assert (-1 < (a + R) / M < 1) by nia. nia.
+    - intros ->. rewrite Z.add_0_l. symmetry. apply Z.mod_small. lia. }
+  destruct (R =? c) eqn:E1; [apply Z.eqb_eq in E1|apply Z.eqb_neq in E1];
+    destruct (a =? 0) eqn:E2; [apply Z.eqb_eq in E2|apply Z.eqb_neq in E2| |]; try tauto;
+    try (apply Z.eqb_eq in E2); try (apply Z.eqb_neq in E2); try tauto; apply Z.mod_small; lia.
+Qed.
+
+Theorem sgn_correct p l k a rbits rdiv ssign rz :
+  prime p -> 1 <= k -> 1 <= l -> 2 ^ (l + k + 1) < p -> 3 * l + 3 < p ->
+  - 2 ^ l < a < 2 ^ l ->
+  Forall bit rbits -> Z.of_nat (length rbits) = l -> 0 <= rdiv < 2 ^ k ->
+  (ssign = 1 \/ ssign = p - 1) -> rz mod p <> 0 ->
+  sgn_v p l 0 (a mod p) rbits rdiv ssign rz = (Z.sgn a) mod p.
+Proof.
+  intros Hp Hk Hl Hpl Hp3 Ha Hb Hlen Hr Hs Hrz.
+  pose proof (sgn_lt_correct p l k a rbits rdiv ssign rz Hp Hk Hl Hpl Hp3 ltac:(lia) Hb Hlen Hr Hs Hrz) as HLT.
+  pose proof (prime_ge_2 p Hp) as Hp2.
+  pose proof (sgn_eq_correct p l k a rbits rdiv ssign rz ltac:(lia) Hk Hl Hpl Ha Hb Hlen Hr) as HEQ.
+  unfold sgn_v in *. cbn [Z.eqb Pos.eqb] in *.
+  destruct (toft p ssign rbits _) as [e sx]. rewrite HLT, HEQ.
+  destruct (a <? 0) eqn:E1; [apply Z.ltb_lt in E1|apply Z.ltb_ge in E1];
+    (destruct (a =? 0) eqn:E2; [apply Z.eqb_eq in E2|apply Z.eqb_neq in E2]); try lia.
+  - rewrite Z.sgn_neg by lia. modring.
+  - subst a. simpl (Z.sgn 0). modring.
+  - rewrite Z.sgn_pos by lia. modring.
+Qed.
+
+(** * abs (runtime.abs): (-2 * sgn(a, LT) + 1) * a *)
+Definition abs_v (p l x : Z) (rbits : list Z) (rdiv ssign rz : Z) : Z :=
+  (((-2 * sgn_v p l 1 x rbits rdiv ssign rz) mod p + 1) mod p * x) mod p.
+
+Theorem abs_correct p l k a rbits rdiv ssign rz :
+  prime p -> 1 <= k -> 1 <= l -> 2 ^ (l + k + 1) < p -> 3 * l + 3 < p ->
+  - 2 ^ l <= a < 2 ^ l ->
+  Forall bit rbits -> Z.of_nat (length rbits) = l -> 0 <= rdiv < 2 ^ k ->
+  (ssign = 1 \/ ssign = p - 1) -> rz mod p <> 0 ->
+  abs_v p l (a mod p) rbits rdiv ssign rz = (Z.abs a) mod p.
+Proof.
+  intros Hp Hk Hl Hpl Hp3 Ha Hb Hlen Hr Hs Hrz. unfold abs_v.
+  rewrite (sgn_lt_correct p l k) by auto.
+  destruct (a <? 0) eqn:E1; [apply Z.ltb_lt in E1|apply Z.ltb_ge in E1].
+  - rewrite Z.abs_neq by lia. modring.
+  - rewrite Z.abs_eq by lia. modring.
+Qed.
+
+(** * _mod (runtime._mod, a la [GMS10]) for a public divisor b > 0 *)
+(** tape: [rbits] = bits of r_modb (a random value below b), [rdiv] = r_divb < 2^k, [ssign], [rz] *)
+Definition mod_v (p l b x : Z) (rbits : list Z) (rdiv ssign rz : Z) : Z :=
+  let rmod := bits_val rbits in
+  let c0 := ((x + (2 ^ l - (2 ^ l) mod b + b * rdiv - rmod)) mod p) mod b in
+  let c := if c0 =? 0 then b else c0 in
+  let cb := to_bits (length rbits) (b - c) in
+  let '(e, sx) := toft p ssign rbits cb in
+  let g := is_zero_public_v p (prod_v p (e ++ [(ssign + 1 + 3 * sx) mod p])) rz in
+  let z := fdiv2 p 1 ((if g then 1 - ssign else 1 + ssign) mod p) in
+  (c + rmod - z * b) mod p.
+
+Lemma mod_g_spec p s rz rb cb : prime p -> (s = 1 \/ s = p - 1) -> rz mod p <> 0 ->
+  Forall bit rb -> Forall bit cb -> length rb = length cb -> 3 * Z.of_nat (length rb) + 3 < p ->
+  let '(e, sx) := toft p s rb cb in
+  is_zero_public_v p (prod_v p (e ++ [(s + 1 + 3 * sx) mod p])) rz = true <->
+  (s = 1 /\ bits_val rb < bits_val cb) \/ (s = p - 1 /\ bits_val cb <= bits_val rb).
+Proof.
+  intros Hp Hs Hrz Hrb Hcb Hlen Hbig. pose proof (prime_ge_2 p Hp) as Hp2.
+  pose proof (toft_spec p s Hs rb cb Hrb Hcb Hlen Hbig) as [H1 [H2 H3]].
+  pose proof (toft_reduced p s ltac:(lia) rb cb) as Hred.
+  destruct (toft p s rb cb) as [e sx]. cbn [fst snd] in *.
+  rewrite is_zero_public_correct by auto.
+  rewrite prod_correct; [|lia|].
+  2:{ apply Forall_app. split; auto. constructor; [apply Z.mod_pos_bound; lia|constructor]. }
+  rewrite Zmod_mod, Z.eqb_eq, lprod_mod_zero by auto.
+  rewrite Exists_app, H3, Exists_cons, Exists_nil, Zmod_mod.
+  assert (Hl : (s + 1 + 3 * sx) mod p = 0 <-> (s = p - 1 /\ sx = 0)).
+  { destruct Hs as [-> | ->].
+    - rewrite Z.mod_small by lia. lia.
+    - replace (p - 1 + 1 + 3 * sx) with ((3 * sx) + 1 * p) by ring. rewrite Z_mod_plus_full.
+      split; [intros H; apply small_mod_zero in H; lia|intros [_ ->]; reflexivity]. }
+  rewrite Hl. lia.
+Qed.
+
+(** [nowrap]: the opened value does not wrap around p. It holds for EVERY tape when
+    a >= -2^l + 2b - 2, and whenever rdiv >= 1; it fails only for (part of) the tapes with rdiv = 0. *)
+Theorem mod_correct p l k b a rbits rdiv ssign rz :
+  prime p -> 2 <= k -> 1 <= l -> 2 ^ (l + k + 1) < p ->
+  0 < b < 2 ^ l -> - 2 ^ l <= a < 2 ^ l ->
+  Forall bit rbits -> bits_val rbits < b -> b <= 2 ^ Z.of_nat (length rbits) ->
+  3 * Z.of_nat (length rbits) + 3 < p ->
+  0 <= rdiv < 2 ^ k -> (ssign = 1 \/ ssign = p - 1) -> rz mod p <> 0 ->
+  0 <= a + 2 ^ l - (2 ^ l) mod b + b * rdiv - bits_val rbits (* nowrap / good tape *) ->
+  mod_v p l b (a mod p) rbits rdiv ssign rz = (a mod b) mod p.
+Proof.
+  intros Hp Hk Hl Hpl Hbr Ha Hb HRb Hblen Hp3 Hr Hs Hrz Hnw. unfold mod_v.
+  pose proof (prime_ge_2 p Hp) as Hp2.
+  pose proof (bits_val_range rbits Hb) as HR.
+  set (R := bits_val rbits) in *. set (M := 2 ^ l) in *.
+  assert (HM : 0 < M) by (apply Z.pow_pos_nonneg; lia).
+  assert (E2 : 2 ^ (l + k + 1) = 2 * 2 ^ k * M).
+  { unfold M. rewrite <- Z.mul_assoc, <- Z.pow_add_r, <- Z.pow_succ_r by lia. f_equal. lia. }
+  assert (E3 : 4 <= 2 ^ k).
+  { assert (2 ^ 2 <= 2 ^ k) by (apply Z.pow_le_mono_r; lia). simpl in *. lia. }
+  pose proof (Z.mod_pos_bound M b ltac:(lia)) as HMb.
+  assert (Ec : (a mod p + (M - M mod b + b * rdiv - R)) mod p = a + M - M mod b + b * rdiv - R).
+  { modsmall (a + M - M mod b + b * rdiv - R) p. split; [lia|]. nia. }
+  rewrite Ec.
+  assert (Ec0 : (a + M - M mod b + b * rdiv - R) mod b = (a - R) mod b).
+  { pose proof (Z.div_mod M b ltac:(lia)) as HdM.
+    replace (a + M - M mod b + b * rdiv - R) with (a - R + (M / b + rdiv) * b) by lia.
+    apply Z_mod_plus_full. }
+  rewrite Ec0. set (c0 := (a - R) mod b).
+  assert (Hc0 : 0 <= c0 < b) by (apply Z.mod_pos_bound; lia).
+  set (c := if c0 =? 0 then b else c0).
+  assert (Hc : 1 <= c <= b /\ (c = c0 \/ c = c0 + b)).
+  { unfold c. destruct (c0 =? 0) eqn:E; [apply Z.eqb_eq in E|apply Z.eqb_neq in E]; lia. }
+  set (cb := to_bits (length rbits) (b - c)).
+  assert (Hcb : Forall bit cb) by apply to_bits_bit.
+  assert (Hcl : length rbits = length cb) by (unfold cb; now rewrite to_bits_length).
+  assert (Hcv : bits_val cb = b - c) by (apply to_bits_val; lia).
+  pose proof (mod_g_spec p ssign rz rbits cb Hp Hs Hrz Hb Hcb Hcl Hp3) as Hg.
+  destruct (toft p ssign rbits cb) as [e sx]. rewrite Hcv in Hg. fold R in Hg.
+  set (g := is_zero_public_v p _ rz) in *.
+  (* z = 1 iff R >= b - c *)
+  assert (Hz : fdiv2 p 1 ((if g then 1 - ssign else 1 + ssign) mod p) = if b - c <=? R then 1 else 0).
+  { assert (H2p : 2 < p) by lia.
+    destruct g eqn:Eg.
+    - destruct (proj1 Hg eq_refl) as [[-> Hlt] | [-> Hle]].
+      + replace (b - c <=? R) with false by (symmetry; apply Z.leb_gt; lia).
+        replace ((1 - 1) mod p) with ((0 * 2 ^ 1) mod p) by (f_equal; ring).
+        rewrite fdiv2_exact by (auto; lia). apply Z.mod_0_l. lia.
+      + replace (b - c <=? R) with true by (symmetry; apply Z.leb_le; lia).
+        replace ((1 - (p - 1)) mod p) with ((1 * 2 ^ 1) mod p) by (modring_k 1).
+        rewrite fdiv2_exact by (auto; lia). apply Z.mod_1_l. lia.
+    - assert (Hng : ~ ((ssign = 1 /\ R < b - c) \/ (ssign = p - 1 /\ b - c <= R))).
+      { intros H. apply Hg in H. congruence. }
+      destruct Hs as [-> | ->].
+      + replace (b - c <=? R) with true by (symmetry; apply Z.leb_le; lia).
+        replace ((1 + 1) mod p) with ((1 * 2 ^ 1) mod p) by (f_equal; ring).
+        rewrite fdiv2_exact by (auto; lia). apply Z.mod_1_l. lia.
+      + replace (b - c <=? R) with false by (symmetry; apply Z.leb_gt; lia).
+        replace ((1 + (p - 1)) mod p) with ((0 * 2 ^ 1) mod p) by (modring_k (-1)).
+        rewrite fdiv2_exact by (auto; lia). apply Z.mod_0_l. lia. }
+  rewrite Hz. f_equal.
+  (* a mod b = c + R - [c + R >= b] * b *)
+  assert (Hab : a mod b = (c + R) mod b).
+  { unfold c0 in *. destruct Hc as [_ [Hc | Hc]]; rewrite Hc.
+    - rewrite Zplus_mod_idemp_l. f_equal. ring.
+    - replace ((a - R) mod b + b + R) with ((a - R) mod b + R + 1 * b) by ring.
+      rewrite Z_mod_plus_full, Zplus_mod_idemp_l. f_equal. ring. }
+  rewrite Hab.
+  destruct (b - c <=? R) eqn:E; [apply Z.leb_le in E|apply Z.leb_gt in E].
+  - replace (c + R) with ((c + R - b) + 1 * b) at 2 by ring. rewrite Z_mod_plus_full, Z.mod_small; lia.
+  - rewrite Z.mod_small; lia.
+Qed.
+
+(** floor division by public b: [q = (a - r) * reciprocal(b)] with r = a mod b (sectypes.__divmod__);
+    the secure reciprocal of the public constant b is the exact field inverse (it retries until its
+    blinding factor is nonzero) *)
+Definition floordiv_v (p l b x : Z) (rbits : list Z) (rdiv ssign rz : Z) : Z :=
+  ((x - mod_v p l b x rbits rdiv ssign rz) mod p * inv_raw p b) mod p.
+
+Theorem floordiv_correct p l k b a rbits rdiv ssign rz :
+  prime p -> 2 <= k -> 1 <= l -> 2 ^ (l + k + 1) < p ->
+  0 < b < 2 ^ l -> - 2 ^ l <= a < 2 ^ l ->
+  Forall bit rbits -> bits_val rbits < b -> b <= 2 ^ Z.of_nat (length rbits) ->
+  3 * Z.of_nat (length rbits) + 3 < p ->
+  0 <= rdiv < 2 ^ k -> (ssign = 1 \/ ssign = p - 1) -> rz mod p <> 0 ->
+  0 <= a + 2 ^ l - (2 ^ l) mod b + b * rdiv - bits_val rbits ->
+  floordiv_v p l b (a mod p) rbits rdiv ssign rz = (a / b) mod p.
+Proof.
+  intros Hp Hk Hl Hpl Hbr Ha Hb HRb Hblen Hp3 Hr Hs Hrz Hnw. unfold floordiv_v.
+  rewrite (mod_correct p l k) by auto.
+  assert (Hbp : b mod p <> 0).
+  { assert (2 ^ l <= 2 ^ (l + k + 1)) by (apply Z.pow_le_mono_r; lia). rewrite Z.mod_small; lia. }
+  replace ((a mod p - (a mod b) mod p) mod p) with ((a / b * b) mod p).
+  - apply (fdiv_exact p b (a / b) Hp Hbp).
+  - pose proof (Z.div_mod a b ltac:(lia)). replace (a / b * b) with (a - a mod b) by lia. modring.
 Qed.
